@@ -42,7 +42,86 @@ func sortedKeys[V any](m map[string]V) []string {
 
 // newInterp prepares an interpreter for a function of the loaded program.
 func newInterp(p *core.Program, fn *core.FuncRef) *absint.Interp {
-	return &absint.Interp{Info: fn.Info(), Prog: p}
+	in := &absint.Interp{Info: fn.Info(), Prog: p}
+	in.Hooks.Inline = helperInline(p, fn.Pkg.PkgPath, fn.Obj)
+	return in
+}
+
+// newLitInterp: an interpreter for a literal found in package pkgRel (descriptor tables), with helper inlining.
+func newLitInterp(p *core.Program, info *types.Info, pkgRel string) *absint.Interp {
+	in := &absint.Interp{Info: info, Prog: p}
+	if pkg := p.Pkg(pkgRel); pkg != nil {
+		in.Hooks.Inline = helperInline(p, pkg.PkgPath, nil)
+	}
+	return in
+}
+
+var helperDecls map[*core.Program]map[*types.Func]*core.FuncRef
+
+// helperInline makes *unexported helpers of the package under analysis* transparent: a rule that interprets a
+// function follows it into the small functions a maintainer may have extracted from it (extract-function is the most
+// common harmless refactoring), instead of seeing an opaque call. Exported functions, interface methods, other
+// packages and recursion stay opaque (rules name those calls in their hooks), and a rule's own Call hook always wins.
+func helperInline(p *core.Program, pkgPath string, root *types.Func) func(fn *types.Func) (*ast.FuncDecl, *types.Info) {
+	if helperDecls == nil {
+		helperDecls = map[*core.Program]map[*types.Func]*core.FuncRef{}
+	}
+	idx := helperDecls[p]
+	if idx == nil {
+		idx = map[*types.Func]*core.FuncRef{}
+		for _, fr := range p.AllFuncs() {
+			if fr.Obj != nil && fr.Decl != nil && fr.Decl.Body != nil {
+				idx[fr.Obj] = fr
+			}
+		}
+		helperDecls[p] = idx
+	}
+	active := map[*types.Func]int{}
+	_ = active
+	return func(fn *types.Func) (*ast.FuncDecl, *types.Info) {
+		if fn == nil || fn.Pkg() == nil || fn.Pkg().Path() != pkgPath || fn == root || fn.Exported() {
+			return nil, nil
+		}
+		fr := idx[fn]
+		if fr == nil {
+			return nil, nil
+		}
+		// no recursion: a helper that (transitively) calls itself or the root stays opaque
+		if callsSelf(p, fr, idx, map[*types.Func]bool{}, fn, root, 0) {
+			return nil, nil
+		}
+		return fr.Decl, fr.Info()
+	}
+}
+
+func callsSelf(p *core.Program, fr *core.FuncRef, idx map[*types.Func]*core.FuncRef, seen map[*types.Func]bool, self, root *types.Func, depth int) bool {
+	if depth > 4 {
+		return true
+	}
+	found := false
+	info := fr.Info()
+	ast.Inspect(fr.Decl.Body, func(n ast.Node) bool {
+		call, ok := n.(*ast.CallExpr)
+		if !ok || found {
+			return !found
+		}
+		f, ok := core.Callee(info, call).(*types.Func)
+		if !ok {
+			return true
+		}
+		if f == self || (root != nil && f == root) {
+			found = true
+			return false
+		}
+		if next := idx[f]; next != nil && !seen[f] && f.Pkg() == self.Pkg() && !f.Exported() {
+			seen[f] = true
+			if callsSelf(p, next, idx, seen, self, root, depth+1) {
+				found = true
+			}
+		}
+		return true
+	})
+	return found
 }
 
 func runDecl(in *absint.Interp, fn *core.FuncRef, init func(st *absint.State, bind func(string, absint.Val)), ref0 string) ([]*absint.Outcome, error) {
@@ -130,4 +209,9 @@ func lookupConst(p *core.Program, rel, name string) absint.Val {
 		return absint.Const{V: c.Val()}
 	}
 	return absint.S("?" + name)
+}
+
+func withMaxPaths(in *absint.Interp, n int) *absint.Interp {
+	in.MaxPaths = n
+	return in
 }
